@@ -38,7 +38,8 @@ package rest
 //	opt files=<dir>                     rest.WithFileServer(dir, fs) (files a, b/c, x.txt, api/a; outcome "file=<name>")
 //	opt router                          rest.WithRouter(router.NewRouter())
 //	opt chain=<n>                       rest.WithChain(chain.New(c1 … cn)) (trail tokens c<i>; replaces the native chain)
-//	use id=<k>               => ok      Server.Use(middleware u<k>)
+//	use id=<k>               => ok      Server.Use(middleware u<k>); k >= 900: it answers itself (202) and does not call next
+//	                                    (outcome "stopped mw=<trail>")
 //	start                    => listen | panic:<verdict>     Server.Start() with a port that cannot be opened
 //	cfg must=1                          the server is built by rest.MustNewServer
 //	herr k=<kind>              => returned | panic:same-error | panic:other     handleError(err) with err = nil, ErrServerClosed,
@@ -124,6 +125,9 @@ func c09SrvUses(r *verifh.Rng, ops []string, lo int) []string {
 	for i, n := 0, r.Pick(1, 1, 2); i < n; i++ {
 		at := lo + r.Intn(len(ops)-lo+1)
 		op := fmt.Sprintf("use id=%d", i+1)
+		if r.Chance(1, 5) {
+			op = fmt.Sprintf("use id=%d", 901+i) // does not call next
+		}
 		ops = append(ops[:at], append([]string{op}, ops[at:]...)...)
 	}
 	return ops
@@ -852,6 +856,8 @@ func TestVerifC09Server(t *testing.T) {
 				if len(trail) > 0 {
 					o += " mw=" + strings.Join(trail, ".") // the WithChain middlewares sit in front of Authorize
 				}
+			case len(trail) > 0 && len(hits) == 0 && rec.Code == http.StatusAccepted:
+				o = "stopped mw=" + strings.Join(trail, ".") // a Use middleware answered itself
 			case len(trail) > 0:
 				o = "middleware-without-handler=" + strings.Join(trail, ".")
 			case len(hits) == 1:
@@ -945,9 +951,14 @@ func TestVerifC09Server(t *testing.T) {
 				if !ok {
 					return "bad-op"
 				}
+				stops := verifh.Atoi(ids) >= 900 // a middleware that answers itself and does not call next
 				srv.Use(func(next http.HandlerFunc) http.HandlerFunc {
 					return func(w http.ResponseWriter, r *http.Request) {
 						trail = append(trail, "u"+ids)
+						if stops {
+							w.WriteHeader(http.StatusAccepted)
+							return
+						}
 						next(w, r)
 					}
 				})
